@@ -189,6 +189,20 @@ def run_shard(shard, ctx):
                     inside = (xs[:, 0] >= a) & (xs[:, 0] <= b)
                     want = np.where(inside, u(r)(xs[:, 0]), 0.0)
                     ctx.close("truncated.evaluate", val, want, scale=float(np.max(want)) if want.size else 1.0, facts=facts)
+            # element-wise evaluation: one point per component, placed below / on / inside / on / above the interval
+            with ctx.guard("truncated.evaluate_elementwise", facts):
+                for pos in ("below", "lower", "inside", "upper", "above"):
+                    xe = np.zeros((R, 1))
+                    want = np.zeros(R)
+                    for r in range(R):
+                        a, b = lo[r, 0], hi[r, 0]
+                        fa = a if np.isfinite(a) else mu[r] - 9 * sg[r]
+                        fb = b if np.isfinite(b) else mu[r] + 9 * sg[r]
+                        xv = {"below": fa - 0.4 * sg[r], "lower": fa, "inside": fa + (0.3 + 0.1 * r) * (fb - fa), "upper": fb, "above": fb + 0.4 * sg[r]}[pos]
+                        xe[r, 0] = xv
+                        want[r] = u(r)(xv) if (xv >= a and xv <= b) else 0.0
+                    got_e = np.asarray(t(J(xe), element_wise=True))
+                    ctx.close("truncated.evaluate_elementwise", got_e, want, scale=float(np.max(want)) if np.max(want) > 0 else 1.0, facts=dict(facts, pos=pos))
             # ---- normalised variant ---------------------------------------------
             Zt, cert0 = refk(0)
             m1, cert1 = refk(1)
@@ -228,6 +242,17 @@ def run_shard(shard, ctx):
                                 inside = (xs[:, 0] >= a) & (xs[:, 0] <= b)
                                 want = np.where(inside, u(r)(xs[:, 0]) / Zt[r], 0.0)
                                 ctx.close("truncated_pdf.evaluate", val, want, scale=float(np.max(want)), tol=1e-8 / min(1.0, float(frac[r])) if frac[r] > 0 else 1e-8, facts=f3)
+                            for pos in ("below", "inside", "above"):
+                                xe = np.zeros((R, 1))
+                                want = np.zeros(R)
+                                for r in range(R):
+                                    a, b = lo[r, 0], hi[r, 0]
+                                    fa = a if np.isfinite(a) else mu[r] - 6 * sg[r]
+                                    fb = b if np.isfinite(b) else mu[r] + 6 * sg[r]
+                                    xv = {"below": fa - 0.4 * sg[r], "inside": fa + (0.3 + 0.1 * r) * (fb - fa), "above": fb + 0.4 * sg[r]}[pos]
+                                    xe[r, 0] = xv
+                                    want[r] = u(r)(xv) / Zt[r] if (xv >= a and xv <= b) else 0.0
+                                ctx.close("truncated_pdf.evaluate_elementwise", np.asarray(tp(J(xe), element_wise=True)), want, scale=float(np.max(want)) if np.max(want) > 0 else 1.0, tol=1e-8 / float(min(1.0, np.min(frac))), facts=dict(f3, pos=pos))
                         else:
                             ctx.count("skipped_far_tail_mean_variance")
     # ---- additivity over adjacent triples -----------------------------------
